@@ -159,8 +159,15 @@ func (s *Service) AttestAndScheduleAggregate(ctx context.Context, duty *attester
 		return
 	}
 
+	// Committees for which an aggregation job has been set up by this call.  Attestations are per validator, so
+	// there can be more than one attestation for a committee, but a single aggregation job per committee suffices.
+	aggregating := make(map[phase0.CommitteeIndex]struct{})
 	for _, attestation := range attestations {
 		log := log.With().Uint64("attestation_slot", uint64(attestation.Data.Slot)).Uint64("committee_index", uint64(attestation.Data.Index)).Logger()
+		if _, exists := aggregating[attestation.Data.Index]; exists {
+			// Already aggregating for this committee.
+			continue
+		}
 		slotInfoMap, exists := subscriptionInfoMap[attestation.Data.Slot]
 		if !exists {
 			log.Debug().Msg("No slot info; not aggregating")
@@ -213,8 +220,9 @@ func (s *Service) AttestAndScheduleAggregate(ctx context.Context, duty *attester
 				continue
 			}
 			// We are set up as an aggregator for this slot and committee.  It is possible that another validator has also been
-			// assigned as an aggregator, but we're already carrying out the task so do not need to go any further.
-			return
+			// assigned as an aggregator for the same committee, but we're already carrying out the task so do not need to
+			// set up another job for it.  Other committees of the slot still need their own aggregation job.
+			aggregating[attestation.Data.Index] = struct{}{}
 		}
 	}
 }
